@@ -294,9 +294,184 @@ pub fn forced_reply_cycle(rng: &mut Rng) -> Option<(Pos, [Mv; 4])> {
     None
 }
 
+/// Perpetual check with sparse material: A (lost side Y to move), y1 checks and X has exactly one
+/// reply x1, then y1^-1 checks as well and X has exactly one reply x1^-1, which restores A.
+/// Y can force the cycle for ever; whether the search sees the draw depends on the occurrences
+/// in the game AND on the current line being counted together.
+pub fn perpetual_cycle(rng: &mut Rng) -> Option<(Pos, [Mv; 4])> {
+    let mut a = Pos::empty();
+    let put = |a: &mut Pos, rng: &mut Rng, pc: (Color, Kind), edge: bool| {
+        for _ in 0..30 {
+            let s = if edge { sq_at(*rng.pick(&[0, 7, 0, 7, 1, 6]), rng.below(8) as i32).unwrap() } else { rng.below(64) as u8 };
+            let s = if edge && rng.chance(1, 2) { sq_at(rank_of(s), file_of(s)).unwrap() } else { s };
+            if a.sq[s as usize].is_none() && !(pc.1 == Kind::Pawn && (rank_of(s) == 0 || rank_of(s) == 7)) {
+                a.sq[s as usize] = Some(pc);
+                return;
+            }
+        }
+    };
+    put(&mut a, rng, (Color::White, Kind::King), true);
+    put(&mut a, rng, (Color::Black, Kind::King), false);
+    let k1 = *rng.pick(&[Kind::Queen, Kind::Queen, Kind::Rook]);
+    put(&mut a, rng, (Color::Black, k1), false);
+    // X's winning material: one or two heavy pieces, perhaps a pawn or two near the king
+    let k2 = *rng.pick(&[Kind::Queen, Kind::Rook]);
+    put(&mut a, rng, (Color::White, k2), false);
+    let k3 = *rng.pick(&[Kind::Rook, Kind::Queen, Kind::Bishop, Kind::Knight]);
+    put(&mut a, rng, (Color::White, k3), false);
+    for _ in 0..rng.below(3) {
+        put(&mut a, rng, (Color::White, Kind::Pawn), true);
+    }
+    a.stm = Color::Black;
+    let a = if rng.chance(1, 2) { mirror(&a) } else { a };
+    if !is_legal_position(&a) || in_check(&a, a.stm) {
+        return None;
+    }
+    for y1 in legal_moves(&a) {
+        let (_, k) = a.sq[y1.from as usize]?;
+        if k == Kind::Pawn || k == Kind::King || is_capture(&a, y1) {
+            continue;
+        }
+        let b = apply(&a, y1);
+        if !in_check(&b, b.stm) {
+            continue;
+        }
+        let lb = legal_moves(&b);
+        if lb.len() != 1 {
+            continue;
+        }
+        let x1 = lb[0];
+        let (_, kx) = b.sq[x1.from as usize]?;
+        if kx != Kind::King || is_capture(&b, x1) {
+            continue;
+        }
+        let c = apply(&b, x1);
+        let y1inv = Mv { from: y1.to, to: y1.from, promo: None };
+        if !legal_moves(&c).contains(&y1inv) {
+            continue;
+        }
+        let d = apply(&c, y1inv);
+        if !in_check(&d, d.stm) {
+            continue;
+        }
+        let ld = legal_moves(&d);
+        let x1inv = Mv { from: x1.to, to: x1.from, promo: None };
+        if ld.len() != 1 || ld[0] != x1inv {
+            continue;
+        }
+        if apply(&d, x1inv) == a {
+            return Some((a, [y1, x1, y1inv, x1inv]));
+        }
+    }
+    None
+}
+
+/// Part d: the draw that needs the game AND the current line. The lost side has a perpetual
+/// check; the game so far went through the cycle's positions at most once, so no root move leads
+/// to a position that occurred twice - the third occurrence is completed inside the search line.
+/// Oracle: the exact reference search (same leaf rules, heuristic-free) is run at the same
+/// depths; from the first depth at which it sees a value >= 0 twice in a row, every completed
+/// depth of the real search must end >= 0 as well. Sound for any pruning that only ever cuts
+/// lines off (the cycle consists of the lost side's checks and forced replies, null moves are
+/// not tried in check, so the line itself is never pruned).
+pub fn perpetual_roots(run: &mut Run, h: &ZobristHasher) {
+    let seed = run.seed;
+    let jobs = run.tier.pick(24usize, 240);
+    let res = par::par_map(jobs, |j| {
+        let mut acc = Acc::new();
+        let mut rng = Rng::stream(seed, 0xC10_D000 + j as u64);
+        let mut found = None;
+        for _ in 0..200_000 {
+            if let Some(x) = perpetual_cycle(&mut rng) {
+                found = Some(x);
+                break;
+            }
+        }
+        let (a, cyc) = match found {
+            Some(x) => x,
+            None => {
+                acc.count("perpetual_cycle_not_found", 1);
+                return acc;
+            }
+        };
+        // the game so far: a prefix of the cycle of 1..5 plies starting at A
+        let plies = [2usize, 1, 3, 4, 5, 2][j % 6];
+        let mut moves = Vec::new();
+        let mut p = a.clone();
+        for i in 0..plies {
+            let m = cyc[i % 4];
+            moves.push(m);
+            p = apply(&p, m);
+        }
+        let hist = History { start: a.clone(), moves, end: p.clone() };
+        let root = match make_root(hist, h) {
+            Ok(r) => r,
+            Err(e) => {
+                acc.violation(format!("C10|panic-d|{}", a.to_fen()), format!("position handler panicked: {}", e), json!({"kind": "position_line", "property": "C10"}));
+                return acc;
+            }
+        };
+        let max_d = 7u8;
+        let r = run_search(&root.board, &root.table, None, max_d);
+        acc.evaluations += 1;
+        if let Some(pn) = &r.panic {
+            acc.violation(format!("C10|panic-search|{}", root.hist.command()), format!("search panicked: {}", pn), json!({"kind": "search", "property": "C10", "position_command": root.hist.command(), "depth_limit": max_d}));
+            return acc;
+        }
+        let mut last: std::collections::BTreeMap<u64, (i64, String)> = Default::default();
+        for e in &r.report.events {
+            if let Ev::Line(l) = e {
+                if let Ok(i) = parse_info(l, true) {
+                    last.insert(i.depth, (score_key(&i.score), l.clone()));
+                }
+            }
+        }
+        // reference values, cheapest depths first, within a node budget
+        let mut rs = RefSearch::new(h, 8_000_000);
+        let mut refv: Vec<Option<i32>> = vec![None; max_d as usize + 1];
+        for d in 1..=max_d {
+            let (v, _) = rs.root(&root.board, d, &root.table);
+            if rs.over_budget {
+                break;
+            }
+            refv[d as usize] = Some(v);
+        }
+        acc.distinct.insert(hash64(&format!("perp|{}", root.hist.command())));
+        acc.feature("perpetual_check_root");
+        let mut judged = 0;
+        for d in 2..=max_d as usize {
+            if let (Some(v0), Some(v1)) = (refv[d - 1], refv[d]) {
+                if v0 >= 0 && v1 >= 0 {
+                    if let Some((sc, l)) = last.get(&(d as u64)) {
+                        judged += 1;
+                        if *sc < 0 {
+                            acc.violation(
+                                format!("C10|missed-draw-line|{}|d{}", root.hist.command(), d),
+                                format!("{} (lost side to move, perpetual check {} {} {} {} available, game so far: {} plies of it): the exact search values depth {} at {} and depth {} at {} (the repetition completed inside the line is a draw), the real search ends depth {} with a negative score: {:?}", root.hist.end.to_fen(), cyc[0], cyc[1], cyc[2], cyc[3], plies, d - 1, v0, d, v1, d, l),
+                                json!({"kind": "search", "property": "C10", "position_command": root.hist.command(), "depth_limit": max_d}),
+                            );
+                        }
+                    }
+                }
+            }
+        }
+        if judged > 0 {
+            acc.feature("perpetual_check_root_with_depths_judged");
+            acc.count("perpetual_depths_judged", judged);
+        }
+        if j == 0 {
+            acc.sample(json!({"perpetual_root": root.hist.command(), "cycle": cyc.iter().map(|m| m.to_string()).collect::<Vec<_>>(), "reference_values": refv, "engine_last_scores": last.iter().map(|(d, (s, _))| (d, s)).collect::<Vec<_>>()}));
+        }
+        acc
+    });
+    for a in res {
+        run.acc.merge(a, &[]);
+    }
+}
+
 pub fn run(tier: Tier, seed: u64) -> i32 {
     let mut run = Run::new("C10", tier, seed, "exploration");
-    run.rule = "part a: evaluation = one game history (<= 400 plies, 1-3 repetition sites with 1..99 cycles each, irreversible moves in between, startpos and fen forms; one history per job is a very long game of 1000-2400 plies whose shuffle repeats 253..600 times) loaded through the real position handler function; the repetition record must equal the oracle's occurrence count of every position (identity: placement, side, rights, ep file) with no other non-zero entry; sessions of several position commands on the hooked binary observe the same after the real handler's clear(). part b: evaluation = one search (virtual clock, depth limits 1..5, and timed go on the real binary) from a root where the side to move is materially lost and has a move into a position that already occurred n >= 2 times (n = 2, 3, 4, 5 and, for very long games, 255, 256, 257, 258, 512); refuter: the last info score of a completed depth is below zero. Non-trivial (a) = a history whose maximum count is >= 2, (b) = every such root; distinct by position command (+ depth limit)".into();
+    run.rule = "part a: evaluation = one game history (<= 400 plies, 1-3 repetition sites with 1..99 cycles each, irreversible moves in between, startpos and fen forms; one history per job is a very long game of 1000-2400 plies whose shuffle repeats 253..600 times) loaded through the real position handler function; the repetition record must equal the oracle's occurrence count of every position (identity: placement, side, rights, ep file) with no other non-zero entry; sessions of several position commands on the hooked binary observe the same after the real handler's clear(). part b: evaluation = one search (virtual clock, depth limits 1..5, and timed go on the real binary) from a root where the side to move is materially lost and has a move into a position that already occurred n >= 2 times (n = 2, 3, 4, 5 and, for very long games, 255, 256, 257, 258, 512); refuter: the last info score of a completed depth is below zero. part d: perpetual-check roots with sparse material whose game went through the cycle at most once, so that the third occurrence is completed inside the search line (game plus current line): from the depth at which the exact reference search values the root >= 0 twice in a row, every completed depth of the real search (limit 7) must end >= 0. Non-trivial (a) = a history whose maximum count is >= 2, (b) = every such root; distinct by position command (+ depth limit)".into();
     run.assumptions = vec![
         "expected keys are computed from scratch through the hasher's getters (C05 covers key = position)".into(),
         "zero-count entries of the record are ignored (readers use unwrap_or(&0))".into(),
@@ -393,6 +568,7 @@ pub fn run(tier: Tier, seed: u64) -> i32 {
     for a in results {
         run.acc.merge(a, &[]);
     }
+    perpetual_roots(&mut run, &h);
     super::timed::c10_blackbox(&mut run, &lost);
     run.floor_distinct = 100;
     run.finish()
